@@ -272,3 +272,78 @@ def suite_datamove(g, n, big=False):
                     rr, cc = cc, rr
             A = g.mat(rr, cc, kind=rng.choice(['dense', 'dense', 'single', 'sparse']))
             g.add(op, '%s %s' % (dst(g, cc, rr), A), c=cc, r=rr, cls=cls)
+
+
+# ------------------------------------------------------------------ C01
+def mdim(g, big=False):
+    rng = g.rng
+    x = rng.random()
+    if x < 0.55:
+        return rng.choice([1, 2, 3, 15, 16, 17, 31, 53, 54, 55, 63, 64, 65, 70, 100, 127, 128, 129])
+    if x < 0.8 or not big:
+        return rng.randint(1, 140)
+    return rng.choice([191, 192, 193, 200, 255, 256, 257, 300, 320, 383, 384, 400, 511, 512, 513, 600])
+
+
+def mul_operands(g, m, l, n, aliasAB=False):
+    kindA = g.rng.choice(['dense', 'dense', 'sparse', 'identity', 'single', 'zero', 'lowrank'])
+    kindB = g.rng.choice(['dense', 'dense', 'sparse', 'identity', 'single', 'zero', 'lowrank'])
+    A = g.mat(m, l, kind=kindA)
+    B = '@1' if aliasAB else g.mat(l, n, kind=kindB)
+    return A, B
+
+
+def suite_mul(g, n, big=False):
+    rng = g.rng
+    for _ in range(n):
+        op = rng.choice(['mul_naive', 'addmul_naive', 'mul_va', 'mul_naive_t', 'mul_m4rm', 'addmul_m4rm', 'mul', 'mul',
+                         'addmul', 'addmul'])
+        m, l, nn = mdim(g, big), mdim(g, big), mdim(g, big)
+        if op in ('mul', 'addmul'):
+            # Strassen region: cut-offs 64..256; shapes around the split limits [4c/3, 2c) and beyond
+            cutoff = rng.choice([0, 1, 63, 64, 64, 64, 65, 128, 128, 192, 256])
+            if rng.random() < 0.6:
+                c = max(64, cutoff // 64 * 64) if cutoff else 64
+                def pick():
+                    x = rng.random()
+                    if x < 0.3:
+                        return rng.randint(4 * c // 3, 2 * c)          # the empty-quadrant band
+                    if x < 0.7:
+                        return rng.randint(2 * c, 4 * c + 10)
+                    return rng.randint(1, 2 * c)
+                m, l, nn = pick(), pick(), pick()
+                if cutoff == 0:
+                    cutoff = rng.choice([64, 128])
+            same = rng.random() < 0.25
+            if same:
+                l = m
+                nn = m
+            A, B = mul_operands(g, m, l, nn, aliasAB=same)
+            if op == 'mul':
+                C = dst(g, m, nn)
+            else:
+                C = g.mat(m, nn, kind='dense')
+            g.add(op, '%s %s %s %d' % (C, A, B, cutoff), m=m, l=l, n=nn, cutoff=cutoff, same=same)
+        elif op in ('mul_m4rm', 'addmul_m4rm'):
+            k = rng.choice([0, 1, 2, 3, 4, 5, 6, 7, 8, 9, 10])
+            if rng.random() < 0.5:
+                # exercise ncols(A) mod 8k and mod k
+                kk = 8 * min(max(k, 2), 8)
+                l = rng.choice([kk, kk + 1, 2 * kk - 1, kk + max(k, 2), kk + max(k, 2) + 1, kk - 1])
+                m = max(m, 16)
+                nn = max(nn, 54)
+            A, B = mul_operands(g, m, l, nn)
+            C = dst(g, m, nn) if op == 'mul_m4rm' else g.mat(m, nn, kind='dense')
+            g.add(op, '%s %s %s %d' % (C, A, B, k), m=m, l=l, n=nn, k=k)
+        elif op in ('mul_naive', 'addmul_naive'):
+            A, B = mul_operands(g, m, l, nn)
+            C = dst(g, m, nn) if op == 'mul_naive' else g.mat(m, nn, kind='dense')
+            g.add(op, '%s %s %s' % (C, A, B), m=m, l=l, n=nn)
+        elif op == 'mul_va':
+            A, B = mul_operands(g, m, l, nn)
+            g.add(op, '%s %s %s %d' % (g.mat(m, nn, kind='dense'), A, B, rng.randint(0, 1)), m=m, l=l, n=nn)
+        else:
+            # _mzd_mul_naive(C, A, BT, clear): BT is nn x l and must own its storage (zero padding)
+            A = g.mat(m, l)
+            BT = g.mat(nn, l, place='o')
+            g.add(op, '%s %s %s %d' % (g.mat(m, nn, kind='dense'), A, BT, rng.randint(0, 1)), m=m, l=l, n=nn)
